@@ -12,8 +12,9 @@ CONSTANTS
   SKeep = {}
   StressRate = 5
   WithPlain = FALSE
+  Epochs = TRUE
   Compress = TRUE
-INVARIANTS TypeOK AtMostOnce InOnePlace NeverIfDropped StressVerdict ExactlyOnceAtRest AccountedAtRest RatesCompose OnlyOwnerCollects DecidedOnce HnyIntact PeerIntact OneHop NoSelfForward ArrivesAtOwner
+INVARIANTS TypeOK AtMostOnce InOnePlace VerdictRespected StressVerdict JustifiedAtNode ExactlyOnceAtRest AccountedAtRest RatesCompose OnlyOwnerCollects DecidedOnce HnyIntact PeerIntact OneHop NoSelfForward ArrivesAtOwner
 PROPERTIES Remembered HnyGrows
 ACTION_CONSTRAINT Dump
 VIEW View
